@@ -176,6 +176,10 @@ static inline void cstl_outvec_kb_emplace_back(cstl_outvec_kb *o, uint64_t k, bo
     o->size++;
 }
 
+static inline uint64_t cstl_max_u64(uint64_t a, uint64_t b) { return a < b ? b : a; } /* std::max / std::min */
+static inline uint64_t cstl_min_u64(uint64_t a, uint64_t b) { return b < a ? b : a; }
+static inline int64_t  cstl_max_i64(int64_t a, int64_t b) { return a < b ? b : a; }
+static inline int64_t  cstl_min_i64(int64_t a, int64_t b) { return b < a ? b : a; }
 /* std::iota / std::swap over vector<size_t> storage (rr_cache's open list) */
 static inline void cstl_iota_ptr(uint64_t *first, uint64_t *last, uint64_t v)
 {
